@@ -92,7 +92,7 @@ def corpus():
         # F70 (fixed by 50c4e1f): copy.deepcopy shared the value of a trait without copy metadata
         "P|x v 0 - A n|set x l 1 i 1|deepcopy",
         "P|x v 0 - A n;dn v 0 - D 1 T 4 d 0|set x d 1 s k l 1 i 1;add dn 0 s b r 2|deepcopy",
-        # F15: detached container under Any is dropped by a deep clone
+        # F71 (fixed by dd9f9de): a detached container under Any was dropped by a deep clone
         "P|x v 0 - A n;l v 0 d L 0 9 T 0 l 0|set l l 1 i 1;alias x l|pickle 2;clone d",
         # F16: all traits transient => everything copied
         "P|x v 1 - A n|set x i 3|clone n",
@@ -100,6 +100,7 @@ def corpus():
         "P|ll v 0 d L 0 9 L 0 9 T 0 l 0;d v 0 - D 1 L 0 9 T 0 d 0|set ll l 2 l 1 i 1 l 0;add d 0 s a l 1 i 2|pickle 0",
         "P|ll v 0 d L 0 9 L 0 9 T 0 l 0;r r 0 - A u|set ll l 1 l 1 i 1;set r i 4|clone d",
         "#OBS deepcopy", "#OBS pickle 2", "#OBS clone d", "#OBS2 pickle 2", "#OBS2 deepcopy",
+        "N|clone n|d|main", "N|clone n|d|parts", "N|clone s|d|main",
         "#DEL proto-both both clone n", "#DEL proto-before color deepcopy", "#G cycle deepcopy", "#G shared pickle 4",
         # F17: a CTrait without __dict__
         '#CT {"name": "raw:CTrait(0)", "how": "copy", "via": "as_ctrait"}',
@@ -190,6 +191,10 @@ def generate(rng, tier):
         for how in ct_hows:
             for via in vias:
                 yield "#CT " + json.dumps({"name": nm, "how": how, "via": via}, sort_keys=True)
+    for outer in N_OUTERS:
+        for om in N_METAS:
+            for kind in ("main", "parts"):
+                yield "N|%s|%s|%s" % (outer, om, kind)
     for op in COPY_OPS:
         yield "#OBS " + op
         yield "#OBS2 " + op
@@ -598,6 +603,130 @@ def run_del(case):
     return " ".join(res), hits, ["DEL", "DEL:" + shape, "DEL:" + sig]
 
 
+# --------------------------------------------------------------------------- N (copy mode below the top level)
+
+_NEST = {}
+N_OUTERS = ["clone n", "clone s", "clone d", "deepcopy", "pickle 0", "pickle 2", "pickle 5"]
+N_METAS = ["d", "-", "r", "s"]
+
+
+def nest_classes(owner_meta):
+    if owner_meta in _NEST:
+        return _NEST[owner_meta]
+    from traits.api import Any, Dict, HasTraits, Instance, Int, List, Str
+    mod = sys.modules[__name__]
+    if "Part" not in _NEST:
+        class Part(HasTraits):
+            a_none = Any()                     # no copy metadata: follows the mode of the call
+            a_deep = Any(copy="deep")
+            a_shallow = Any(copy="shallow")
+            a_ref = Any(copy="ref")
+            opts = Dict(Str, Any)              # Dict carries no copy metadata either
+            lock = Any()                       # holds a value that cannot be copied
+            size = Int()
+        Part.__module__ = __name__
+        Part.__qualname__ = "Part"
+        setattr(mod, "Part", Part)
+        _NEST["Part"] = Part
+    Part = _NEST["Part"]
+    md = {"d": "deep", "-": None, "r": "ref", "s": "shallow"}[owner_meta]
+    name = "Assembly_" + {"d": "deep", "-": "none", "r": "ref", "s": "shallow"}[owner_meta]
+    cls = type(HasTraits)(name, (HasTraits,), {
+        "main": Instance(Part, copy=md), "parts": List(Instance(Part), copy=md), "a_none": Any(), "lock": Any(),
+        "__module__": __name__, "__qualname__": name})
+    setattr(mod, name, cls)
+    _NEST[owner_meta] = (cls, Part)
+    return _NEST[owner_meta]
+
+
+def documented_fate(outer, owner_meta, child_meta, uncopyable):
+    """The rule as documented (HasTraits.clone_traits / copy_traits): the trait's own `copy` metadata wins, else
+    the mode of the call - and that mode is the mode of the WHOLE clone, nested objects included; copy.deepcopy
+    and pickle copy everything."""
+    def eff(meta, arg):
+        return meta if meta is not None else (arg if arg is not None else "ref")
+    if outer.startswith("pickle"):
+        return "deep"
+    arg = {"clone n": None, "clone s": "shallow", "clone d": "deep", "deepcopy": "deep"}[outer]
+    owner = eff({"d": "deep", "-": None, "r": "ref", "s": "shallow"}[owner_meta], arg)
+    if owner in ("ref", "shallow"):
+        return "same"       # the child is shared, or shallow-copied (its values are re-assigned as they are)
+    m = eff(child_meta, arg)
+    if m == "ref":
+        return "same"
+    return "lost" if uncopyable else m
+
+
+def run_n(case):
+    import threading
+    parts = case.split("|")
+    outer, owner_meta = parts[1].strip(), parts[2].strip()
+    kind = parts[3].strip() if len(parts) > 3 else "main"
+    cls, Part = nest_classes(owner_meta)
+    pick = outer.startswith("pickle")
+    lock = None if pick else threading.Lock()
+
+    def val():
+        return [[1], [2]]
+    child = Part(a_none=val(), a_deep=val(), a_shallow=val(), a_ref=val(), opts={"k": val()}, lock=lock, size=3)
+    o = cls(a_none=val(), lock=lock)
+    if kind == "main":
+        o.main = child
+    else:
+        o.parts = [Part(size=1), child]
+    hits = []
+    try:
+        c = PL.do_copy(o, outer)
+    except Exception as e:
+        return "copyerr " + exc_name(e), [{"signature": "copy-raises:nested:%s" % exc_name(e),
+                                           "what": "%s of a two-level graph raised %s" % (outer, e)}], ["N"]
+    new = c.main if kind == "main" else (c.parts[1] if len(c.parts) > 1 else None)
+    if new is None:
+        return "child-missing", [{"signature": "nested-child-missing:%s" % outer,
+                                  "what": "the clone has no child object"}], ["N"]
+
+    def fate(nv, ov):
+        if nv is ov:
+            return "same"
+        if nv is None:
+            return "lost"
+        if nv == ov and nv[0] is ov[0]:
+            return "shallow"
+        if nv == ov:
+            return "deep"
+        return "differs"
+    obs = [("a_none", fate(new.a_none, child.a_none), None, False), ("a_deep", fate(new.a_deep, child.a_deep), "deep", False),
+           ("a_shallow", fate(new.a_shallow, child.a_shallow), "shallow", False),
+           ("a_ref", fate(new.a_ref, child.a_ref), "ref", False)]
+    ov = "same" if ("k" in new.opts and new.opts["k"] is child.opts["k"]) else \
+        "deep" if new.opts.get("k") == child.opts["k"] else "differs"
+    out = " ".join("%s=%s" % (n, f) for n, f, _, _ in obs) + " opts=" + ov
+    for n, f, meta, unc in obs:
+        want = documented_fate(outer, owner_meta, meta, unc)
+        if f != want:
+            hits.append({"signature": "nested-copy-mode:%s:%s-%s:%s:%s-not-%s" % (
+                PL.COPY_SIG[outer if not pick else "pickle"], kind, owner_meta, n, f, want),
+                "what": "%s: value of the child's %s (copy metadata %s) is %s, the documented rule gives %s" % (
+                    outer, n, meta, f, want)})
+    want = "deep" if documented_fate(outer, owner_meta, None, False) == "deep" else "same"
+    if ov != want:
+        hits.append({"signature": "nested-copy-mode:%s:%s-%s:opts:%s-not-%s" % (
+            PL.COPY_SIG[outer if not pick else "pickle"], kind, owner_meta, ov, want),
+            "what": "%s: values inside the child's Dict are %s, the documented rule gives %s" % (outer, ov, want)})
+    if not pick:
+        lf = "same" if new.lock is lock else "lost" if new.lock is None else "differs"
+        out += " lock=" + lf
+        want = documented_fate(outer, owner_meta, None, True)
+        if lf != want:
+            hits.append({"signature": "nested-copy-mode:%s:%s-%s:lock:%s-not-%s" % (
+                PL.COPY_SIG[outer], kind, owner_meta, lf, want),
+                "what": "%s: the child's uncopyable value is %s, the documented rule gives %s" % (outer, lf, want)})
+        # the top level follows the same rule (sanity)
+        if outer == "clone n" and not (c.lock is lock and c.a_none is o.a_none):
+            hits.append({"signature": "top-level-copy-mode:clone-ref", "what": "clone_traits() copied a top-level Any value"})
+    return out, hits, ["N", "N:" + PL.COPY_SIG[outer if not pick else "pickle"], "N:owner-" + owner_meta]
+
+
 # --------------------------------------------------------------------------- #G
 
 _G = {}
@@ -731,6 +860,8 @@ def run_impl(case):
         return PL.run_p(case)
     if case.startswith("T|"):
         return run_t(case)
+    if case.startswith("N|"):
+        return run_n(case)
     if case.startswith("#CT "):
         return run_ct(case)
     if case.startswith("#OBS "):
